@@ -71,7 +71,7 @@ fn split_children(
         .filter(|(_, c)| matches!(c, Child::Elem(_)))
         .map(|(i, _)| i)
         .collect();
-    if elem_idx.is_empty() || !rng.chance(2, 3) {
+    if elem_idx.is_empty() || !rng.chance(2, 3) || level >= max_level {
         return;
     }
     // choose a run [a, b] of consecutive children (may contain comments in between)
@@ -789,6 +789,12 @@ fn fault_case(rng: &mut Rng, rec: &mut Recorder, scratch: &Path, case: u64) {
 
 /// build a file tree with includes for the totality monitor (C03); returns the main file
 pub fn make_tree(rng: &mut Rng, g: &Grammar, scratch: &Path, case: u64) -> Option<PathBuf> {
+    let max_level = rng.urange(1, 3);
+    make_tree_levels(rng, g, scratch, case, max_level)
+}
+
+/// like make_tree, include files nested at most `max_level` deep
+pub fn make_tree_levels(rng: &mut Rng, g: &Grammar, scratch: &Path, case: u64, max_level: usize) -> Option<PathBuf> {
     let mut cfg = crate::c01::gen_cfg_wide(rng, false);
     cfg.max_elems = 60;
     cfg.a2ml = false;
@@ -801,7 +807,6 @@ pub fn make_tree(rng: &mut Rng, g: &Grammar, scratch: &Path, case: u64) -> Optio
         nested_sibling_in_subdir: false,
     };
     let mut counter = 0;
-    let max_level = rng.urange(1, 3);
     {
         let project = doc.project_mut();
         for c in project.children.iter_mut() {
